@@ -281,4 +281,18 @@ theorem roundRobinProposer_ok (com : List Nat) (h r : Nat) (hn : 0 < com.length)
   rw [List.getElem?_eq_getElem hlt]
   exact ⟨_, rfl, List.getElem_mem _⟩
 
+/-! ## concrete objects shared by the examples / witnesses of the property files -/
+
+/-- an active validator with a committee of four -/
+def share4 : Share :=
+  { committee := [1, 2, 3, 4], quorum := 3, liquidated := false, hasMeta := true, statusAttesting := true,
+    pendingQueued := false, activationEpoch := 0, index := 123 }
+/-- the Prater / test network constants -/
+def praterCfg : NetCfg := { genesis := 1616508000, slotDur := 12, slotsPerEpoch := 32, epochsPerPeriod := 256, permissionlessEpoch := 0 }
+def ctx0 : Ctx := { cfg := praterCfg, duties := { proposer := [], sync := [] } }
+/-- a consensus message `m` for the attester role of validator 1, received at unix time `unixNow`, before the fork -/
+def inputAt (m : QMsg) (unixNow : Int) : Input :=
+  { vid := 1, role := 0, dataLen := 300, domainOk := true, pkOk := true, share := some share4, body := .consensus m,
+    envSig := .none, now := GoTime.unix unixNow, wallEpoch := 1000 }
+
 end Ssv.Validation
